@@ -215,6 +215,15 @@ def p_had(a, b):
                 for f, e in fa + fb:
                     dd[f] = dd.get(f, 0) + e
                 fs = frozenset((f, e) for f, e in dd.items() if e != 0)
+                polys = [f for f, e in fs if f.op == "poly" and e == 1]
+                if polys and (any(f.op == "poly" and e != 1 for f, e in fa) or any(f.op == "poly" and e != 1 for f, e in fb)):
+                    # sqrt(p) * sqrt(p) is p again: the parenthesised sum is multiplied back out
+                    rest_fs = frozenset((f, e) for f, e in fs if f is not polys[0])
+                    rest_chain = () if not rest_fs else ((next(iter(rest_fs))[0],) if (len(rest_fs) == 1 and next(iter(rest_fs))[1] == 1) else (A("had", rest_fs),))
+                    sub = p_had(frozenset([((s, rest_chain), ka * kb)]), polys[0].kids[0])
+                    for m2, k2 in sub:
+                        d[m2] = d.get(m2, 0) + k2
+                    continue
                 if not fs:
                     chain = ()
                 elif len(fs) == 1 and next(iter(fs))[1] == 1:
@@ -1267,6 +1276,12 @@ class Normalizer:
                 chain = min(rots, key=lambda c: tuple(id(x) for x in c))
             if op == "sum" and not has_axis and not rest and len(chain) == 1 and chain[0].op == "sum" and all(isinstance(r, tuple) and r and r[0] == "axis" for r in chain[0].kids[1:]):
                 chain = (chain[0].kids[0],)  # the total of partial sums is the total
+            if op == "sum" and not has_axis and not rest and len(chain) == 1 and chain[0].op == "diagof" and len(chain[0].kids) == 1:
+                # the sum of the diagonal is the trace
+                inner_atom = chain[0].kids[0]
+                ip = frozenset([((EMPTY_S, tuple(inner_atom.kids) if inner_atom.op == "chain" else (inner_atom,)), ONE)]) if inner_atom.op != "poly" else inner_atom.kids[0]
+                out = p_add(out, self.linear_reduce("trace", (None,), cyclic=True, inner=p_had(frozenset([((s, ()), k)]), ip)))
+                continue
             if op == "sum" and not has_axis and not rest and len(chain) == 1 and chain[0].op == "had":
                 # sum_ij P_ij Q_ij = trace(P Q^T)  (and sum of squares = trace(P P^T)): one canonical form
                 fs = list(chain[0].kids[0])
